@@ -14,14 +14,14 @@ LEVEL = 'exploration'
 RULE = ('(i) every Unicode code point U+0000..U+10FFFF is placed in an '
         'exception message (blocks of 2048 code points per run; a block whose '
         'report does not parse is bisected down to single code points, so each '
-        'code point is decided individually), and the same for the BMP in a '
+        'code point is decided individually; code points below U+0100 and the XML-special ones are also placed alone), and the same for the BMP in a '
         'test method name, a test class name, a doctest name, a doctest file '
         'path and an exception class name, and every code point in doctest '
         'output (expected/actual diff and an exception raised by an example); '
         '(ii) a list of hostile strings (markup characters, '
         ']]>, CR/LF, 100 kB, multi-line, lone surrogates in both orders, NUL) '
         'in messages, subtest parameters and method names; (iii) every outcome '
-        'kind x --repeat {1,2}: every report must parse with expat, suite '
+        'kind x --repeat {1,2}; 4 layer shapes whose layers run in resumed / -j2 / -j3 subprocesses: every report must parse with expat, suite '
         'attributes must equal element counts, passing tests appear once per '
         'iteration, every failure/error is a testcase with the test\'s own '
         'class and name. non-trivial = every case (each block holds distinct '
@@ -67,6 +67,15 @@ def cases(tier, seed):
     for k in DKINDS:
         for rep in (1, 2):
             yield ['dkind', k, rep]
+    # alone: a code point in the company of 2047 others may take a different
+    # path through the escaping code (pure-ASCII text, short text)
+    singles = list(range(0, 0x100)) + [0x2028, 0x2029, 0xd7ff, 0xd800, 0xdbff, 0xdc00, 0xdfff,
+                                       0xe000, 0xfffd, 0xfffe, 0xffff, 0x10000, 0x10ffff]
+    if tier == 'thorough':
+        singles = list(range(0, 0x10000)) + [0x10000, 0x1f600, 0x10ffff]
+    for place in ('cp_msg', 'cp_name', 'cp_cls', 'cp_dname', 'cp_dfile', 'cp_dmsg', 'cp_etype'):
+        for i in range(0, len(singles), 32):
+            yield ['singles', place, singles[i:i + 32]]
     for i in range(len(STRINGS)):
         for place in ('msg', 'subp', 'name'):
             yield ['str', i, place]
@@ -74,6 +83,12 @@ def cases(tier, seed):
         for rep in (1, 2):
             yield ['kind', k, rep]
     yield ['import_error', None, None]
+    # layers that run in subprocesses write their own report files into the
+    # same directory: nothing may be lost or overwritten
+    for shape in ('N1B2C1', 'A2B1i', 'A1B1C1d', 'U1A2'):
+        for mode in (['seq'] if shape == 'N1B2C1' else []) + ['-j2', '-j3']:
+            for k in ('pass', 'fail', 'error', 'sub:1,1,1'):
+                yield ['modes', [shape, k], mode]
     if tier == 'thorough':
         for start in range(0, 0x110000, BLK):
             yield ['cp_subp', start, min(0x110000, start + BLK)]
@@ -312,6 +327,23 @@ def run_case(case):
         # its code points at once; a failing block is bisected)
         return {'evals': len(cps), 'nontrivial': len(cps), 'violations': viol,
                 'outcome': kind, 'counters': {'runner_executions': evals}}
+    if kind == 'singles':
+        place, cps = a, b
+        rej = PY_REJECTS.get(place)
+        n = 0
+        for cp in cps:
+            if rej and rej(cp):
+                continue
+            n += 1
+            found, ev = bad_codepoints(MAKERS[place], [cp])
+            evals += ev
+            for cp_, why in found:
+                viol.append({'clause': 'codepoint_breaks_report',
+                             'sig': {'place': place, 'class': cp_class(cp_), 'alone': True},
+                             'detail': 'U+%04X alone in %s: %s' % (cp_, place, why),
+                             'case': ['singles', place, [cp_]]})
+        return {'evals': n, 'nontrivial': n, 'violations': viol, 'outcome': 'singles',
+                'counters': {'runner_executions': evals}}
     if kind == 'pairs':
         sp = b
         for c2 in sp:
@@ -349,6 +381,19 @@ def run_case(case):
                           {'n': 'q3', 'l': None, 'dt': 'string', 's': 'pass'}]}
         why = 'doctest %s repeat %d' % (a, rep)
         res, files = run_xml(spec, ['--repeat', str(rep)] if rep > 1 else [])
+    elif kind == 'modes':
+        rep = 1
+        shape, k = a
+        nslots = len(ow.SHAPES[shape][1])
+        spec = ow.build(shape, ['pass'] * (nslots - 1) + [k])
+        # a second test class in the first slot's layer, so that one child
+        # contributes two report files
+        why = 'shape %s last test %s mode %s' % (shape, k, b)
+        res, files = run_xml(spec, [] if b == 'seq' else [b])
+        if not res.children:
+            vs0 = [('harness_no_children', why)]
+        else:
+            vs0 = []
     elif kind == 'kind':
         rep = b
         spec = {'layers': [{'n': 'A', 'b': [], 'k': 'c', 'h': ['setUp', 'tearDown']}],
@@ -361,8 +406,10 @@ def run_case(case):
         spec = {'layers': [], 'tests': [{'n': 'q0', 'l': None, 's': 'pass'}], 'bad_modules': ['vtw.broken']}
         why = 'import error'
         res, files = run_xml(spec)
-    sig = {'part': kind, 'what': (a if kind in ('kind', 'dkind') else (b if kind == 'str' else ''))}
+    sig = {'part': kind, 'what': (str(a) if kind in ('kind', 'dkind', 'modes') else (b if kind == 'str' else ''))}
     vs = check_files(res, files, why)
+    if kind == 'modes':
+        vs += vs0
     if not files and not vs:
         vs.append(('no_report', why))
     if not res.escaped:
